@@ -33,7 +33,8 @@ def _run(case):
     out2, out3 = [], []
     for n in range(N):
         lp = sc[n].T
-        lpn = lp - np.log(np.exp(lp).sum(axis=1, keepdims=True))
+        from scipy.special import logsumexp
+        lpn = lp - logsumexp(lp, axis=1, keepdims=True)
         out2.append(dec.GreedyDecoder(chars + [dec.BLANK_SYMBOL])(lpn).best_hyp())
         out3.append(greedy_filtration(lp, chars)[0])
     bad = []
